@@ -42,6 +42,27 @@ CHECKS.update({
    note="termination is not decided by testing; disk-full faults cannot be injected in this sandbox"),
 })
 
+CHECKS.update({
+ "C04": dict(level="exploration", engine="hypothesis", design="3/C04",
+   technique="Hypothesis stateful-style histories of presolve/postsolve calls on one converted model, run in two orders; tag-identified images of linear constraints; documented slack mapping as oracle",
+   text="Generated models with uniquely tagged linear constraints (range/<=/>=/=) behind nonlinear and logical items are converted under acceptance "
+        "tables that keep range rows or turn them into equality+slack; a generated history of 4-12 direct value-presolver calls (solution, basis, IIS, "
+        "generic int/dbl, lazy flags; both directions) runs inside the scripted solver. Checked: shapes, variable j <-> delivered variable j, linear "
+        "constraint <-> its row with the range_con.h slack mapping, inbound values on the images, and identical results for every call in a second, "
+        "differently ordered history.",
+   note="nothing is asserted for values of nonlinear/logical constraints; images are found by tag coefficients, not via mp's link graph"),
+ "C19": dict(level="exploration", engine="hypothesis", design="3/C19",
+   technique="Hypothesis-generated models x cvt:names modes x .col/.row files (absent, short, CRLF, AMPL-style quoting) x acceptance; name invariants on the recorded ModelAPI calls",
+   text="On everything the ModelAPI received: no names unless requested; otherwise every variable/constraint/objective name non-empty, unique per class, "
+        "original variables carry the file or generic name, auxiliary names derive from an original item's name.",
+   note="one recorded known finding (derived-name collisions of sibling items) is counted and skipped; 'derived' = has an original name as prefix"),
+ "C20": dict(level="exploration", engine="hypothesis", design="3/C20",
+   technique="Hypothesis-generated conversions with cvt:writegraph and hostile names; strict JSON parse plus completeness/consistency invariants against the recorded ModelAPI calls",
+   text="Every exported line must be strict JSON; all NL and delivered items present; exactly one status record per created constraint saying exactly "
+        "one of unused/reformulated/delivered; link records within the sizes of the node classes; the set marked final equals the constraints delivered.",
+   note="Python json with NaN/Infinity rejected defines validity; short type names reconstructed from acc: option names"),
+})
+
 NOT_APPLICABLE = []
 
 def main():
